@@ -50,6 +50,7 @@ type Gen struct {
 	liveFeed []string
 	emit     func(l Line) string // executes and records; returns result
 	metaCas  uint64
+	viewBodies bool
 }
 
 var xattrNames = []string{"_sync", "_sys", "usr", "u2"}
@@ -57,6 +58,30 @@ var xattrNames = []string{"_sync", "_sys", "usr", "u2"}
 const rbNames = "_sync,_sys,usr,u2,$document,$document.revid"
 
 func (g *Gen) jsonBody() string {
+	if g.viewBodies {
+		n := g.r.intn(4)
+		switch g.r.intn(11) {
+		case 0, 1:
+			return fmt.Sprintf(`{"a":%d}`, n)
+		case 2:
+			return fmt.Sprintf(`{"a":"s%d","b":%d}`, n, g.r.intn(50))
+		case 3:
+			return fmt.Sprintf(`{"a":[%d,"x"],"b":{"z":1,"y":%d}}`, n, n)
+		case 4:
+			return `{"a":null}`
+		case 5:
+			return fmt.Sprintf(`{"a":true,"tags":["t%d","t%d"]}`, n, g.r.intn(3))
+		case 6:
+			return fmt.Sprintf(`{"tags":["t0","t%d","t2"],"b":"v"}`, n)
+		case 7:
+			return fmt.Sprintf(`{"a":{"q":%d,"p":"z"}}`, n)
+		case 8:
+			return fmt.Sprintf(`{"b":%d}`, n)
+		case 9:
+			return fmt.Sprintf(`{"a":-%d,"b":[1,{"k":"v"}]}`, n+1)
+		}
+		return fmt.Sprintf(`{"a":false,"tags":[]}`)
+	}
 	switch g.r.intn(5) {
 	case 0:
 		return fmt.Sprintf(`{"a":%d}`, g.r.intn(100))
@@ -740,6 +765,185 @@ func (g *Gen) queryProgram(n int) {
 	}
 }
 
+var viewKeysByMap = map[int][]string{
+	0: {`"k0"`, `"k1"`, `"k2"`, `"k3"`, `"k4"`, `"k"`, `"k9"`, `1`, `null`},
+	1: {`0`, `1`, `2`, `3`, `-2`, `-1`, `"s1"`, `"s2"`, `"s0"`, `null`, `true`, `false`, `[1,"x"]`, `[2]`, `[2,"x"]`, `{"p":"z","q":1}`, `{"p":"z"}`, `"k1"`},
+	2: {`["t0",0]`, `["t1"]`, `["t2",2]`, `["t1",1]`, `["t0"]`, `["t3"]`, `"t1"`, `[]`, `["t2",1]`},
+	3: {`"k0"`, `"k1"`, `"k2"`, `"k3"`, `"k4"`, `"k"`, `"k9"`, `{}`, `0`},
+}
+
+// viewParams adds a random, semantically unambiguous parameter combination to a view query (see DESIGN.md: `keys` is not combined
+// with descending / limit, limit is not combined with reduce, group_level only on the array-keyed view).
+func (g *Gen) viewParams(l *Line, mapID int, reduce string) string {
+	cls := ""
+	viewKeys := viewKeysByMap[mapID]
+	switch g.r.weighted([]int{30, 15, 25, 12}) {
+	case 0:
+		cls = "all"
+	case 1:
+		l.add("key", pick(g.r, viewKeys))
+		cls = "key"
+	case 2:
+		a, b := pick(g.r, viewKeys), pick(g.r, viewKeys)
+		if g.r.chance(75) {
+			l.add("startkey", a)
+		}
+		if g.r.chance(75) {
+			l.add("endkey", b)
+		}
+		if g.r.chance(30) {
+			l.add("incl", "0")
+		}
+		cls = "range"
+	case 3:
+		n := 1 + g.r.intn(3)
+		ks := make([]string, n)
+		for i := range ks {
+			ks[i] = pick(g.r, viewKeys)
+			for strings.HasPrefix(ks[i], "{") { // sg-bucket's Go-value collator (FilterKeys) treats all objects as equal
+				ks[i] = pick(g.r, viewKeys)
+			}
+		}
+		l.add("keys", "["+strings.Join(ks, ",")+"]")
+		cls = "keys"
+	}
+	if cls != "keys" && g.r.chance(30) {
+		l.add("desc", "1")
+		cls += "+desc"
+	}
+	reducing := reduce != ""
+	if reducing && g.r.chance(35) {
+		l.add("reduce", "0")
+		reducing = false
+	}
+	if reducing {
+		cls += "+reduce"
+		if mapID != 1 && g.r.chance(40) { // view 1 emits object keys, which sg-bucket's grouping collator cannot tell apart
+			l.add("group", "1")
+			cls += "+group"
+		} else if mapID == 2 && g.r.chance(50) {
+			l.add("glevel", fmt.Sprint(1+g.r.intn(2)))
+			cls += "+glevel"
+		}
+	} else if cls != "keys" && g.r.chance(25) {
+		l.add("limit", fmt.Sprint(1+g.r.intn(4)))
+		cls += "+limit"
+	}
+	if g.r.chance(15) {
+		l.add("stale", "ok")
+		cls += "+stale"
+	}
+	if g.r.chance(30) {
+		l.add("api", "query")
+	}
+	return cls
+}
+
+type genView struct {
+	coll, dd, name string
+	mapID          int
+	reduce         string
+}
+
+// viewProgram: design documents put / replaced / deleted, a write history through every entry point, view queries with random
+// parameters at random positions; at the end every view is queried without parameters.
+func (g *Gen) viewProgram(n int, withMeta bool) {
+	g.colls = []string{"c0", "c1"}
+	g.keys = []string{"k0", "k1", "k2", "k3", "k4"}
+	g.viewBodies = true
+	if !withMeta {
+		g.profile = "nometa"
+	}
+	var views []genView
+	putDDoc := func(c, dd string) {
+		l := Line{Op: "putddoc", Pos: []string{c, dd}}
+		nv := 1 + g.r.intn(3)
+		kept := views[:0:0]
+		for _, v := range views {
+			if !(v.coll == c && v.dd == dd) {
+				kept = append(kept, v)
+			}
+		}
+		views = kept
+		for i := 0; i < nv; i++ {
+			m := g.r.intn(4)
+			red := ""
+			if m == 2 {
+				red = pick(g.r, []string{"_count", "_sum", ""})
+			} else if g.r.chance(35) {
+				red = "_count"
+			}
+			name := fmt.Sprintf("v%d", i)
+			l.add("v."+name, fmt.Sprintf("%d:%s", m, red))
+			views = append(views, genView{c, dd, name, m, red})
+		}
+		g.emit(l)
+		g.stats["op:putddoc"]++
+	}
+	putDDoc("c0", "dd0")
+	for i := 0; i < n; i++ {
+		g.tick()
+		c, k := pick(g.r, g.colls), pick(g.r, g.keys)
+		switch g.r.weighted([]int{62, 6, 2, 30}) {
+		case 0:
+			if g.oneOp(c, k) {
+				for _, cc := range g.colls {
+					for _, kk := range g.keys {
+						g.rb(cc, kk)
+					}
+				}
+			}
+			g.rb(c, k)
+		case 1:
+			putDDoc(pick(g.r, g.colls), pick(g.r, []string{"dd0", "dd1"}))
+		case 2:
+			dc, dd := pick(g.r, g.colls), pick(g.r, []string{"dd0", "dd1"})
+			g.emit(Line{Op: "delddoc", Pos: []string{dc, dd}})
+			kept := views[:0:0]
+			for _, v := range views {
+				if !(v.coll == dc && v.dd == dd) {
+					kept = append(kept, v)
+				}
+			}
+			views = kept
+			g.stats["op:delddoc"]++
+		case 3:
+			if len(views) == 0 {
+				continue
+			}
+			v := pick(g.r, views)
+			l := Line{Op: "view", Pos: []string{v.coll, v.dd, v.name}}
+			cls := g.viewParams(&l, v.mapID, v.reduce)
+			res := g.emit(l)
+			g.stats["op:view"]++
+			nrows := "0"
+			for _, t := range strings.Split(res, " ") {
+				if strings.HasPrefix(t, "n=") {
+					nrows = t[2:]
+					if len(nrows) > 1 {
+						nrows = "many"
+					}
+				}
+			}
+			g.stats[fmt.Sprintf("cell:view/m%d/%s/rows%s", v.mapID, cls, nrows)]++
+		}
+		if g.w.kind == "disk" && g.r.chance(3) {
+			g.emit(Line{Op: "restart", Args: [][2]string{{"hlc", "0"}}})
+			g.stats["op:restart"]++
+		}
+	}
+	for _, c := range g.colls {
+		g.emit(Line{Op: "ddocs", Pos: []string{c}})
+		for _, k := range g.keys {
+			g.rb(c, k)
+		}
+	}
+	for _, v := range views {
+		g.emit(Line{Op: "view", Pos: []string{v.coll, v.dd, v.name}, Args: [][2]string{{"reduce", "0"}}})
+	}
+	g.emit(Line{Op: "view", Pos: []string{"c0", "nodd", "v0"}})
+}
+
 // resumeProgram: one checkpointed feed in resume mode, stopped and restarted (live and dump runs) between batches of writes.
 func (g *Gen) resumeProgram(n int) {
 	g.colls = []string{"c0"}
@@ -921,6 +1125,13 @@ func (g *Gen) program(n int) {
 		g.phys = 1 << 20
 		g.now = 1700000000
 		g.resumeProgram(n)
+		return
+	}
+	if g.profile == "view" || g.profile == "viewmeta" {
+		g.phys = 1 << 20
+		g.now = 1700000000
+		g.metaCas = 5000000
+		g.viewProgram(n, g.profile == "viewmeta")
 		return
 	}
 	if g.profile == "query" {
